@@ -186,12 +186,19 @@ Qed.
 
 (** ** every lock section preserves the invariant, given what the preceding
     section of the same call established *)
-Definition sec_guard (c : msec) (s : memfs) : Prop :=
+Definition sec_guard (c : msec) (s : gmap path memfile) : Prop :=
   match c with
-  | MInsertDir p | MInsertFile p => p = [] \/ is_dir s (removelast p)
-  | MRemove p => p <> [] /\ forall n, s !! (p ++ [n]) = None
+  | MRemove p => p <> []
   | _ => True
   end.
+
+Lemma has_parent_dir (s : gmap path memfile) p :
+  has_parent s p = true -> p <> [] /\ is_dir s (removelast p).
+Proof.
+  unfold has_parent. destruct p as [|x p']; [discriminate|]. intros H.
+  destruct (s !! removelast (x :: p')) as [d|] eqn:E; [|discriminate].
+  destruct (f_type d) eqn:Ht; [discriminate|]. split; [discriminate|]. exists d. auto.
+Qed.
 
 Lemma root_dir_insert_ne (s : gmap path memfile) q f : q <> [] -> is_dir s [] -> is_dir (<[q := f]> s) [].
 Proof. intros Hq (d & Hd & Ht). exists d. now rewrite lookup_insert_ne. Qed.
@@ -234,24 +241,24 @@ Proof.
   destruct c; cbn [msec_sem sec_guard] in *; unfold mem_update;
     repeat (dm; cbn [fst]); try exact Hwf.
   - (* MInsertDir, vacant *)
-    split; [apply root_dir_insert_ne; [eapply not_root_of_absent; eauto|auto]|].
-    now apply pc_insert_dir.
+    match goal with H : has_parent s p = true |- _ => destruct (has_parent_dir s p H) as [Hne Hd] end.
+    split; [apply root_dir_insert_ne; auto|]. apply pc_insert_dir; auto.
   - (* MSetC *) split; [eapply root_dir_update; eauto|eapply pc_update; eauto].
   - (* MSetM *) split; [eapply root_dir_update; eauto|eapply pc_update; eauto].
   - (* MSetA *) split; [eapply root_dir_update; eauto|eapply pc_update; eauto].
   - (* MInsertFile over a file *)
+    match goal with H : has_parent s p = true |- _ => destruct (has_parent_dir s p H) as [Hne Hd] end.
     match goal with H : s !! p = Some ?f |- _ =>
-      split; [apply root_dir_insert_ne; [eapply (not_root_of_file s p f); eauto|auto]|
-              apply pc_insert_leaf; auto; eapply (file_is_leaf s p f); eauto] end.
+      split; [apply root_dir_insert_ne; auto|apply pc_insert_leaf; auto; eapply (file_is_leaf s p f); eauto] end.
   - (* MInsertFile, vacant *)
-    split; [apply root_dir_insert_ne; [eapply not_root_of_absent; eauto|auto]|].
-    apply pc_insert_leaf; auto. eapply absent_is_leaf; eauto.
+    match goal with H : has_parent s p = true |- _ => destruct (has_parent_dir s p H) as [Hne Hd] end.
+    split; [apply root_dir_insert_ne; auto|]. apply pc_insert_leaf; auto. eapply absent_is_leaf; eauto.
   - (* MRemoveFile *)
     match goal with H : s !! p = Some ?f |- _ =>
       split; [apply root_dir_delete; [eapply (not_root_of_file s p f); eauto|auto]|
               apply pc_delete; auto; eapply (file_is_leaf s p f); eauto] end.
   - (* MRemove *)
-    destruct Hg as [Hne Hleaf]. split; [now apply root_dir_delete|now apply pc_delete].
+    split; [now apply root_dir_delete|]. apply pc_delete; auto. now apply mem_children_nil.
   - (* MPublish over a file *)
     match goal with H : s !! p = Some ?f |- _ =>
       split; [eapply (root_dir_update s p f); eauto|eapply (pc_update s p f); eauto] end.
